@@ -15,6 +15,7 @@
 package s3proxy
 
 import (
+	"bytes"
 	"context"
 	"crypto/sha256"
 	"encoding/base64"
@@ -752,6 +753,16 @@ func (s *S3Proxy) PutObject(ctx context.Context, input s3response.PutObjectInput
 		if err == nil {
 			expire = &exp
 		}
+	}
+
+	// the sdk cannot determine the length of an empty unseekable stream
+	// and then omits the decoded content length: drain the (verifying)
+	// reader and send a seekable empty body instead
+	if input.ContentLength != nil && *input.ContentLength == 0 && input.Body != nil {
+		if _, err := io.Copy(io.Discard, input.Body); err != nil {
+			return s3response.PutObjectOutput{}, err
+		}
+		input.Body = bytes.NewReader(nil)
 	}
 
 	// streaming backend is not seekable,
